@@ -3,3 +3,4 @@ import JellyProofs.C05
 import JellyProofs.C08
 import JellyProofs.C10
 import JellyProofs.C13
+import JellyProofs.C04
